@@ -1,12 +1,13 @@
 import PprofVerif.Lemmas.StacksFrames
 import PprofVerif.Lemmas.StacksLoop
 import PprofVerif.Lemmas.StacksPlaces
+import PprofVerif.Lemmas.StacksUnique
 /-! C17 helper lemmas, part E: the whole of `Stacks()` in closed form, and the facts about the
 specification functions `firstIdx` / `placesFrom` the property theorems read off. -/
 namespace PV.Stacks
 open PV
 
-theorem Inv.range {acc : St × Slice Stack} {done : List (Int × List Frame)} (h : Inv acc done) :
+theorem Inv.range {o : Opts} {acc : St × Slice Stack} {done : List (Int × List Frame)} (h : Inv o acc done) :
     ∀ st ∈ acc.2.elems, ∀ j ∈ st.sources.elems, j < acc.1.sources.elems.length := by
   intro st hst j hj
   rw [h.stacks] at hst
@@ -20,15 +21,15 @@ def result (total : Int) (st : St) (rs : List (Int × List Frame)) : StackSet :=
     sources := Slice.lit (st.sources.elems.mapIdx (fun i s =>
       addP s (Spec.placesOf (rs.map (mkStack st.srcs)) i))) }
 
-theorem build_spec (total : Int) (rs : List (Int × List Frame)) :
-    ∃ st, Inv (st, Slice.lit (rs.map (mkStack st.srcs))) rs ∧ build total rs = .ok (result total st rs) := by
-  obtain ⟨acc, hm, inv⟩ := makeInitialStacks_spec rs
+theorem build_spec' (o : Opts) (total : Int) (rs : List (Int × List Frame)) :
+    ∃ st, Inv o (st, Slice.lit (rs.map (mkStack st.srcs))) rs ∧ UQ st ∧ build o total rs = .ok (result total st rs) := by
+  obtain ⟨acc, hm, inv⟩ := makeInitialStacks_spec o rs
   have h2 : acc.2 = Slice.lit (rs.map (mkStack acc.1.srcs)) := slice_eq_lit _ _ inv.snn inv.stacks
   have hsrc : acc.1.sources = ⟨true, acc.1.sources.elems⟩ := by
     have := inv.wf.nn
     cases hs : acc.1.sources with
     | mk nn el => simp_all
-  refine ⟨acc.1, by rw [← h2]; exact inv, ?_⟩
+  refine ⟨acc.1, by rw [← h2]; exact inv, UQ_fold o rs _ [] (Inv_init o) UQ_init acc hm, ?_⟩
   have hfp := fillPlaces_spec acc.2.elems 0 true acc.1.sources.elems inv.range (by
     intro s hs
     obtain ⟨i, hi⟩ := List.mem_iff_getElem?.1 hs
@@ -37,6 +38,26 @@ theorem build_spec (total : Int) (rs : List (Int × List Frame)) :
   simp only [build, hm, hfp, bind, Outcome.bind, pure, result, Spec.placesOf]
   rw [h2]
   rfl
+
+theorem build_spec (o : Opts) (total : Int) (rs : List (Int × List Frame)) :
+    ∃ st, Inv o (st, Slice.lit (rs.map (mkStack st.srcs))) rs ∧ build o total rs = .ok (result total st rs) := by
+  obtain ⟨st, inv, _, hb⟩ := build_spec' o total rs
+  exact ⟨st, inv, hb⟩
+
+/-- the (FullName, UniqueName) list of the result satisfies `UQN`. -/
+theorem stacks_uq {o : Opts} {p : Profile} {idx : Nat} {ss : StackSet} (h : stacks o p idx = .ok ss) :
+    UQN (ss.sources.elems.map nm) := by
+  simp only [stacks] at h
+  cases hr : resolve p idx with
+  | err e => simp [hr, bind, Outcome.bind] at h
+  | panic e => simp [hr, bind, Outcome.bind] at h
+  | ok rs =>
+    simp only [hr, bind, Outcome.bind] at h
+    obtain ⟨st, _, uq, hb⟩ := build_spec' o (computeTotal ((rs.zip p.samples).map fun x => (x.1.1, diffBase x.2))) rs
+    rw [hb] at h
+    injection h with h
+    subst h
+    simpa [result, Slice.lit, map_nm_mapIdx_addP] using uq.uniq
 
 /-! ### facts about the specification functions -/
 
@@ -166,16 +187,16 @@ theorem values_of_resolve (p : Profile) (idx : Nat) :
           | some fs => simp [hv, hf] at h1; simp [← h1]
       simp [hv, ih rs0 h2]
 
-theorem stacks_ok {p : Profile} {idx : Nat} {ss : StackSet} (h : stacks p idx = .ok ss) :
+theorem stacks_ok {o : Opts} {p : Profile} {idx : Nat} {ss : StackSet} (h : stacks o p idx = .ok ss) :
     ∃ rs st total, Spec.resolve p idx = some rs ∧
-      Inv (st, Slice.lit (rs.map (mkStack st.srcs))) rs ∧ ss = result total st rs := by
+      Inv o (st, Slice.lit (rs.map (mkStack st.srcs))) rs ∧ ss = result total st rs := by
   simp only [stacks] at h
   cases hr : resolve p idx with
   | err e => simp [hr, bind, Outcome.bind] at h
   | panic e => simp [hr, bind, Outcome.bind] at h
   | ok rs =>
     simp only [hr, bind, Outcome.bind] at h
-    obtain ⟨st, inv, hb⟩ := build_spec (computeTotal ((rs.zip p.samples).map fun x => (x.1.1, diffBase x.2))) rs
+    obtain ⟨st, inv, hb⟩ := build_spec o (computeTotal ((rs.zip p.samples).map fun x => (x.1.1, diffBase x.2))) rs
     rw [hb] at h
     exact ⟨rs, st, _, resolve_spec p idx rs hr, inv, by injection h with h; exact h.symm⟩
 
